@@ -27,6 +27,7 @@ func shortName(s string) string {
 // ---------------------------------------------------------------- modifies
 
 type modTarget struct {
+	cond  string // optional guard: the target may change only when cond holds
 	heap  string
 	whole bool   // whole heap
 	obj   [2]string // (atype, ref): whole object
@@ -70,6 +71,21 @@ func (t *tr) evalModItem(item ast.Expr, env *senv, pre map[string]string) (out [
 					ks = append(ks, c.ghostKey(g.Keys[i], c.eval(a)))
 				}
 				return []modTarget{{heap: "G_" + id.Name, keys: ks, kind: 3}}, nil
+			}
+			if id.Name == "when" && len(x.Args) == 2 {
+				cond := c.rv1(c.eval(x.Args[0]))
+				inner, err := t.evalModItem(x.Args[1], env, pre)
+				if err != nil {
+					return nil, err
+				}
+				for i := range inner {
+					if inner[i].cond != "" {
+						inner[i].cond = "(and " + cond + " " + inner[i].cond + ")"
+					} else {
+						inner[i].cond = cond
+					}
+				}
+				return inner, nil
 			}
 			if id.Name == "alltype" && len(x.Args) == 1 {
 				// alltype("pkg/path.T"): every object of that allocation type, in every component heap its cells use
@@ -263,13 +279,26 @@ func frameExpr(old, nw string, targets []modTarget) (string, bool) {
 	}
 	var groups []*grp
 	gidx := map[string]*grp{}
+	wrap := func(m modTarget, prev, next string) string {
+		if m.cond == "" {
+			return next
+		}
+		return fmt.Sprintf("(ite %s %s %s)", m.cond, next, prev)
+	}
 	for _, m := range targets {
 		switch m.kind {
 		case 0:
-			return nw, true
+			if m.cond == "" {
+				return nw, true
+			}
+			expr = wrap(m, expr, nw)
 		case 1:
-			expr = fmt.Sprintf("(store %s %s (store (select %s %s) %s (select (select %s %s) %s)))", expr, m.obj[0], expr, m.obj[0], m.obj[1], nw, m.obj[0], m.obj[1])
+			expr = wrap(m, expr, fmt.Sprintf("(store %s %s (store (select %s %s) %s (select (select %s %s) %s)))", expr, m.obj[0], expr, m.obj[0], m.obj[1], nw, m.obj[0], m.obj[1]))
 		case 2:
+			if m.cond != "" {
+				expr = wrap(m, expr, sto(expr, m.loc, sel(nw, m.loc)))
+				continue
+			}
 			a, b, c := locParts(m.loc)
 			g := gidx[a+"|"+b]
 			if g == nil {
@@ -279,9 +308,9 @@ func frameExpr(old, nw string, targets []modTarget) (string, bool) {
 			}
 			g.cells = append(g.cells, c)
 		case 3:
-			expr = storeKeys(expr, nw, m.keys)
+			expr = wrap(m, expr, storeKeys(expr, nw, m.keys))
 		case 5:
-			expr = fmt.Sprintf("(store %s %s (select %s %s))", expr, m.obj[0], nw, m.obj[0])
+			expr = wrap(m, expr, fmt.Sprintf("(store %s %s (select %s %s))", expr, m.obj[0], nw, m.obj[0]))
 		}
 	}
 	for _, g := range groups {
@@ -370,11 +399,20 @@ func (t *tr) frameGoal(h, cur string, targets []modTarget, ty, ref string) strin
 	for _, m := range targets {
 		switch m.kind {
 		case 1:
-			ante = append(ante, fmt.Sprintf("(not (and (= %s %s) (= %s %s)))", ty, m.obj[0], ref, m.obj[1]))
+			if m.cond != "" {
+				ante = append(ante, fmt.Sprintf("(not (and %s (= %s %s) (= %s %s)))", m.cond, ty, m.obj[0], ref, m.obj[1]))
+			} else {
+				ante = append(ante, fmt.Sprintf("(not (and (= %s %s) (= %s %s)))", ty, m.obj[0], ref, m.obj[1]))
+			}
 		case 5:
 			ante = append(ante, fmt.Sprintf("(not (= %s %s))", ty, m.obj[0]))
 		case 2:
 			a, b, c := locParts(m.loc)
+			if m.cond != "" {
+				// conservatively: the whole object may change when the condition holds
+				ante = append(ante, fmt.Sprintf("(not (and %s (= %s %s) (= %s %s)))", m.cond, ty, a, ref, b))
+				continue
+			}
 			g := gidx[a+"|"+b]
 			if g == nil {
 				g = &grp{a: a, b: b}
@@ -836,6 +874,7 @@ func (t *tr) appendBuiltin(ins ssa.Instruction, x ssa.Value, args []ssa.Value, R
 	newLen := fmt.Sprintf("(+ (slen %s) %s)", s, eLen)
 	inPlace := fmt.Sprintf("(<= %s (scap %s))", newLen, s)
 	nr := t.newRef(R)
+	t.freshVsHeap(R, nr, heaps)
 	tag := t.eng.sliceTag(x.Type())
 	t.allocs = append(t.allocs, allocInfo{nr, x})
 	t.escapes[x] = true // conservatively
